@@ -1,10 +1,54 @@
-"""setup_cmd: parse every module of the suite with SANY (nothing is compiled from /repo)."""
+"""setup_cmd: parse every module of the suite with SANY (nothing is compiled from /repo: the checks import
+the library from its working tree at run time).  A module that does not parse fails the setup only if a
+REGISTERED check needs it (modules of bundles still being built are reported, not fatal)."""
 import glob
 import os
+import re
+import shutil
+import subprocess
 import sys
+import tempfile
 from concurrent.futures import ThreadPoolExecutor
 
 from harness import tlc
+
+ROOT = os.path.dirname(os.path.dirname(os.path.abspath(__file__)))
+
+
+def _needed_modules():
+    try:
+        reg = [l.strip() for l in open(os.path.join(ROOT, "REGISTERED")) if l.strip() and not l.startswith("#")]
+    except FileNotFoundError:
+        reg = []
+    todo = [os.path.join(ROOT, "props", r + ".py") for r in reg]
+    seen, text = set(), ""
+    while todo:
+        p = todo.pop()
+        if p in seen or not os.path.exists(p):
+            continue
+        seen.add(p)
+        s = open(p).read()
+        text += s
+        for m in re.findall(r"from props import ([\w, ]+)", s):
+            for name in m.split(","):
+                todo.append(os.path.join(ROOT, "props", name.strip().split(" as ")[0] + ".py"))
+        for m in re.findall(r"import props\.(\w+)|from props\.(\w+) import", s):
+            todo.append(os.path.join(ROOT, "props", (m[0] or m[1]) + ".py"))
+        for m in re.findall(r"from harness import ([\w, ]+)", s):
+            for name in m.split(","):
+                todo.append(os.path.join(ROOT, "harness", name.strip().split(" as ")[0] + ".py"))
+    specs = {os.path.basename(f)[:-4]: f for f in glob.glob(os.path.join(tlc.SPEC_DIR, "*.tla"))}
+    need = {n for n in specs if re.search(r"\b" + re.escape(n) + r"\b", text)}
+    changed = True
+    while changed:   # modules extended / instantiated by needed modules
+        changed = False
+        for n in list(need):
+            s = open(specs[n]).read()
+            for m in specs:
+                if m not in need and re.search(r"\b" + re.escape(m) + r"\b", s):
+                    need.add(m)
+                    changed = True
+    return need
 
 
 def main() -> int:
@@ -21,21 +65,21 @@ def main() -> int:
     with ThreadPoolExecutor(8) as ex:
         for p, r in zip(files, ex.map(one, files)):
             if r:
-                bad.append(r)
+                bad.append((os.path.basename(p)[:-4], r))
     # typed modules for Apalache live in spec/apalache (they EXTEND Apalache, which SANY alone does not know)
-    import shutil
-    import subprocess
-    import tempfile
     for p in sorted(glob.glob(os.path.join(tlc.SPEC_DIR, "apalache", "*.tla"))):
         out = tempfile.mkdtemp(prefix="vapa_")
         try:
             r = subprocess.run(["apalache-mc", "typecheck", f"--out-dir={out}", p], cwd=out, capture_output=True, text=True, timeout=600)
             files.append(p)
             if r.returncode != 0:
-                bad.append(f"apalache typecheck failed on {p}:\n{r.stdout[-2000:]}")
+                bad.append((os.path.basename(p)[:-4], f"apalache typecheck failed on {p}:\n{r.stdout[-2000:]}"))
         finally:
             shutil.rmtree(out, ignore_errors=True)
-    for b in bad:
-        print(b)
-    print(f"setup: {len(files)} modules parsed, {len(bad)} failed")
-    return 1 if bad else 0
+    need = _needed_modules() | {"RefCountInd"}
+    fatal = [b for b in bad if b[0] in need]
+    for name, msg in bad:
+        print(("FATAL " if name in need else "not needed by a registered check: ") + name)
+        print(msg[-1500:])
+    print(f"setup: {len(files)} modules parsed, {len(bad)} failed ({len(fatal)} needed by registered checks)")
+    return 1 if fatal else 0
